@@ -58,6 +58,9 @@ Definition wait_fuel (b : busymodel) : nat :=
 Inductive outcome := OOk | OErr | OPanic | ODiverged.
 
 Record icfg := mkCfg { sbw : bool; cfg_delay_us : N }.
+(** [DisplayInterface::new]: [delay_us.unwrap_or(10_000)] *)
+Definition mk_cfg (single_byte_write : bool) (delay_us : option N) : icfg :=
+  mkCfg single_byte_write (match delay_us with Some d => d | None => 10000 end).
 
 (** ** Buffer environment: the bytes of argument [arg] of call [call] at index [i] *)
 Definition env := N -> N -> N -> N.
@@ -180,7 +183,7 @@ Definition expand_call (cfg : icfg) (rho : env) (i : icall) : H :=
   | ICmd c => if_cmd c
   | IData e => if_data cfg (den rho e)
   | IDataEach g grp e =>
-      hseq_list (map (fun b => hseq_list (map (if_data cfg) (groups (N.to_nat grp) (bapply g b))))
+      hseq_list (map (fun b => hseq_list (map (if_data cfg) (groups (Pos.to_nat grp) (bapply g b))))
                      (den rho e))
   | IDataX v n => if_data_x v n
   | IWait bl => if_wait cfg bl
